@@ -964,6 +964,27 @@ class NetworkGraph(AbstractBaseIR):
             source_vars[s_str] = {'sources': [sop], 'node': snode, 'var': svar}
             in_vars.append(t_str)
 
+        # step 2b: members of a vectorized target variable that none of the edges projects to keep their declared
+        # default value if nothing else feeds the variable, and receive nothing from the edges otherwise
+        if tsize > 1 and not any(isinstance(w, np.ndarray) for w in weights):
+            targeted = set()
+            for tidx in target_indices:
+                targeted.update(int(idx) for idx in (tidx if tidx is not None else []))
+            untargeted = [idx for idx in range(tsize) if idx not in targeted]
+            if targeted and untargeted:
+                fed_by_ops = bool(self[tnode][top]['inputs'].get(tvar, {}).get('sources'))
+                defaults = np.asarray(tval['value']).reshape(-1)
+                base = np.zeros(tsize, dtype=defaults.dtype if defaults.dtype.kind in 'fc' else float)
+                if not fed_by_ops:
+                    base[untargeted] = defaults[untargeted]
+                if multiple_inputs:
+                    if np.any(base != 0):
+                        b_str = _fresh(f'{tvar}_default')
+                        args[b_str] = {'vtype': 'constant', 'value': base, 'dtype': 'float', 'shape': base.shape}
+                        in_vars.append(b_str)
+                else:
+                    tval['value'] = base.tolist() if type(tval['value']) is list else base
+
         # step 3: process multiple inputs to same variable
         if multiple_inputs:
 
